@@ -22,6 +22,7 @@ BOUNDS = {  # property -> (quick max, thorough max, description of the enumerate
     'C05': (2, 3, 'all registration histories of length <= max over the pool of 17 types (incl. nested aliases) in 3 API modes; evaluation counters'),
     'C06': (2, 2, 'about 80 portable types (every definition kind, ids across all compact size classes, unicode / empty strings) and 2-entry registries'),
     'C07': (2, 2, 'about 90 registries of 0..2 entries over every entry shape (every definition kind, ids across the compact size classes, unicode / empty strings): decode(encode(r)) == r, exact consumption with a 3-byte tail, pairwise distinct encodings'),
+    'C08': (2, 2, 'about 130 registries of 0..3 entries over every entry shape (every definition kind with and without its optional members, ids in every order, enums of up to 300 variants): serde_json::to_value equals an independently built documented shape; from_str(to_string(r)) == r; from_value(to_value(r)) == r; agrees with the SCALE round trip'),
     'C10': (2, 3, 'all registries of <= max entries over all entry shapes (every definition kind, parameters present / skipped / mixed) x all filters'),
     'C11': (2, 3, 'all registration histories of length <= max; all pairs of pool types with one of 3 recursive roots registered in two orders'),
     'C12': (2, 3, 'all builder scripts of length <= max+1 over 10 near-duplicate values (differing in one leaf), next_type_id, get'),
@@ -69,4 +70,74 @@ def run_witness(pid, tier, outdir, features=()):
     else:
         # a panic inside the real code on an enumerated input is a concrete failing execution too
         res.update(status='failed' if 'panicked' in out else 'undecided', cases=0, nontrivial=0, witness=out[-3000:], reason=out[-600:])
+    return res
+
+
+# ---- C15: one program, one build per feature set, compare the printed encodings -------------------------------------------
+C15_QUICK = ['', 'std', 'decode', 'std,serde', 'std,decode,serde,bit-vec,schema', 'docs', 'std,docs', 'decode,serde,docs']
+
+
+def c15_feature_sets(tier):
+    if tier != 'thorough':
+        return C15_QUICK
+    import itertools
+    base = ['std', 'decode', 'serde', 'bit-vec', 'schema']
+    sets = []
+    for n in range(len(base) + 1):
+        for c in itertools.combinations(base, n):
+            sets.append(','.join(c))
+    sets += [x + (',' if x else '') + 'docs' for x in ['', 'std', 'decode', 'std,decode', 'std,serde', 'serde', 'bit-vec', 'std,decode,serde,bit-vec,schema']]
+    return sets
+
+
+def run_witness15(tier, outdir):
+    sets = c15_feature_sets(tier)
+    scope = ('the SCALE encoding of the registry of 19 fixed types (derived structs / enums with docs, compact, skip, recursion, capture_docs always / never; '
+             'built-ins: tuples, arrays, Vec, Option, Result, maps, sets, ranges, Duration, NonZero, Compact, Cow, PhantomData, str) printed by one program built under %d feature sets: %s'
+             % (len(sets), ' | '.join(x or '(none)' for x in sets)))
+    src = os.path.join(outdir, 'witness15-src')
+    shutil.rmtree(src, ignore_errors=True)
+    shutil.copytree(os.path.join(VERIF, 'witness15'), src)
+    p = os.path.join(src, 'Cargo.toml')
+    manifest = open(p).read().replace('path = "/repo"', 'path = "%s"' % REPO)
+    open(p, 'w').write(manifest)
+    env = dict(os.environ, CARGO_NET_OFFLINE='true', CARGO_TARGET_DIR=os.path.join(VERIF, 'build', 'witness15-target'))
+    res = dict(property='C15', max=len(sets), scope=scope, features=[], cmd='(cd %s && for each feature set F: cargo run --release --offline --features F)' % src,
+               cases=0, nontrivial=0)
+    t0 = time.time()
+    ref_full = ref_nodocs = ref_set = None
+    ref_docs_full = ref_docs_set = None
+    for fs in sets:
+        cmd = ['cargo', 'run', '--release', '--offline', '--quiet'] + (['--features', fs] if fs else [])
+        r = subprocess.run(cmd, cwd=src, env=env, stdout=subprocess.PIPE, stderr=subprocess.PIPE, text=True, timeout=1800)
+        full = re.search(r'^FULL (\w+)$', r.stdout, re.M)
+        nod = re.search(r'^NODOCS (\w+)$', r.stdout, re.M)
+        if r.returncode != 0 or not full or not nod:
+            res.update(status='undecided', reason='the fingerprint program does not build / run with features [%s]: %s' % (fs, (r.stderr or r.stdout)[-500:]))
+            return res
+        full, nod = full.group(1), nod.group(1)
+        res['cases'] += 1
+        docs = 'docs' in fs.split(',')
+        if ref_set is None:
+            ref_full, ref_nodocs, ref_set = full, nod, fs
+            continue
+        res['nontrivial'] += 1
+        bad = None
+        if nod != ref_nodocs:
+            bad = 'with all documentation lists emptied the encoded registry still differs'
+        elif not docs and full != ref_full:
+            bad = 'the encoded registry differs'
+        elif docs and ref_docs_set is None:
+            ref_docs_full, ref_docs_set = full, fs
+        elif docs and full != ref_docs_full:
+            bad = 'with the docs feature on in both, the encoded registry (documentation included) differs'
+            ref_set, ref_full = ref_docs_set, ref_docs_full
+        if bad:
+            k = next((i for i in range(0, min(len(nod), len(ref_nodocs)), 2) if nod[i:i + 2] != ref_nodocs[i:i + 2]), min(len(nod), len(ref_nodocs))) // 2
+            res.update(status='failed', witness='%s between feature set [%s] and feature set [%s] (first differing byte of the docs-free encodings: offset %d; lengths %d / %d)\n'
+                       '[%s] FULL   %s\n[%s] FULL   %s\n[%s] NODOCS %s\n[%s] NODOCS %s'
+                       % (bad, ref_set or '(none)', fs or '(none)', k, len(ref_nodocs) // 2, len(nod) // 2, ref_set, ref_full, fs, full, ref_set, ref_nodocs, fs, nod))
+            res['wall_s'] = round(time.time() - t0, 1)
+            return res
+    res.update(status='ok', wall_s=round(time.time() - t0, 1))
     return res
